@@ -368,19 +368,56 @@ End AutoSpec.
 
 (** ** The known class F7 (SLG, history dependence after a coinductive cycle).
 
-    [f7_class fuel bods co hist i]: the [i]-th goal of a history posed to ONE SLG solver is
-    coinductive, lies on a cycle of the goal graph, and was reached by an earlier, different
-    root goal of the history.  (Decided on the input: program, history, position.) *)
+    [f7_class fuel bods co hist i]: the search for the [i]-th goal of a history posed to ONE SLG
+    solver reaches (or is) a coinductive goal [x] on a cycle of the goal graph that an earlier
+    root goal of the history, different from [x], has reached: the table of [x] was created as a
+    non-root member of a coinductive cycle.  (Decided on the input: program, history, position.) *)
 Definition on_cycle (fuel : nat) (bods : ty -> list (list ty)) (g : ty) : bool :=
   existsb (fun b => match reach bods fuel [b] [] with Some R => memT g R | None => false end)
           (concat (bods g)).
+
+Definition reaches (fuel : nat) (bods : ty -> list (list ty)) (x g : ty) : bool :=
+  match reach bods fuel [x] [] with Some R => memT g R | None => false end.
 
 Definition f7_class (fuel : nat) (bods : ty -> list (list ty)) (co : ty -> bool) (hist : list ty) (i : nat) : bool :=
   match nth_error hist i with
   | None => false
   | Some g =>
-      co g && on_cycle fuel bods g &&
-      existsb (fun r => negb (ty_eqb r g) &&
-                        match reach bods fuel [r] [] with Some R => memT g R | None => false end)
-              (firstn i hist)
+      match reach bods fuel [g] [] with
+      | None => false
+      | Some R =>
+          existsb (fun x => co x && on_cycle fuel bods x &&
+                            existsb (fun r => negb (ty_eqb r x) && reaches fuel bods r x) (firstn i hist)) R
+      end
+  end.
+
+(** ** The in-query variant of the same defect (found by the C05 check).
+
+    [f7q_class fuel bods co root]: the search for [root] on a fresh SLG solver reaches a
+    coinductive goal [g <> root] on a cycle whose strongly connected component is not a simple
+    ring (some member has two different successors inside the component).  Then an answer of a
+    component member can keep a delayed subgoal on another member that is never refined, and
+    the root goal is reported unprovable although it holds
+    ([#[auto] trait Sync {} struct S0 { a: S1 } struct S1 { a: S3, b: S2 } struct S2 { a: S1, b: S3 }
+    struct S3 { a: S2 }]: [S0: Sync] => No possible solution on a fresh SLG solver). *)
+Fixpoint dedupT (l : list ty) : list ty :=
+  match l with
+  | [] => []
+  | x :: r => if memT x r then dedupT r else x :: dedupT r
+  end.
+
+Definition scc_of (fuel : nat) (bods : ty -> list (list ty)) (g : ty) : list ty :=
+  match reach bods fuel [g] [] with
+  | Some R => filter (fun x => reaches fuel bods x g) R
+  | None => []
+  end.
+
+Definition f7q_class (fuel : nat) (bods : ty -> list (list ty)) (co : ty -> bool) (root : ty) : bool :=
+  match reach bods fuel [root] [] with
+  | None => false
+  | Some R =>
+      existsb (fun g =>
+        co g && negb (ty_eqb g root) && on_cycle fuel bods g &&
+        let C := scc_of fuel bods g in
+        existsb (fun x => Nat.leb 2 (length (dedupT (filter (fun y => memT y C) (concat (bods x)))))) C) R
   end.
